@@ -54,6 +54,22 @@ CHECKS["C01"] = ("PAIR", MC, "explicit-state BFS of two real connection objects 
    "A real client connection and a real server connection exchange exactly the bytes each requests to send. For every configuration (v3.1.1 / v5.0, automatic / manual / mixed responses, Receive Maximum each way, Topic Alias Maximum with manual / auto-map / auto-replace, Maximum Packet Size equal to the largest workload packet, keep-alive with timer expiries) the closure of all interleavings of workload operations from both sides (publish QoS 0/1/2 on two topics, with and without manual aliases, subscribe / unsubscribe / ping; quick 2, thorough 3-4 operations), whole-frame and partial deliveries in both directions (cut after 1 byte, after the fixed header, mid-body) and transport losses at every point (quick 1, thorough 2; everything in flight discarded, both sides told, persistent session resumed with the same limits) is explored. Oracle: no protocol error reported by either side, no panic, the delivery-only sub-graph is acyclic (no endless response loop), and in every quiescent state QoS 2 messages were notified exactly once, QoS 1 at least once (exactly once without loss), QoS 0 at most once with original topic and payload, both sides idle (no id in use, empty stores and pid sets, empty handled set, full Receive Maximum vacancy).",
    "Bounded by the workload size, one partial delivery and the loss budget; all explorations of the quick tier close. Trusts the verif_state hook for the idle clause.",
    "DESIGN.md §3 C01")
+CHECKS["C02"] = ("ENUM", EX, "bounded-exhaustive enumeration of the abstract packet space through the real builders, serialisers and parsers",
+   "Every abstract packet with at most 3 simultaneously deviating fields (4 for the small kinds) from the per-kind default - 29 kinds, both versions, u16 and u32 identifiers; deviation sets: flags each way, optional fields present / absent, string / binary / payload lengths on both sides of every length-encoding boundary and of every SSO threshold, ids 1 / 2 / 255 / 256 / max, every reason code, 1-3 entries, every allowed property with 2-4 values, every pair of allowed properties, all permitted at once - is built with the public builder; for every accepted packet size() == contiguous length == concatenated vectored length, the Remaining Length on the wire frames exactly the packet, parse(body) returns an equal packet and consumes the whole body; the v5 PUBLISH rewriting helpers keep the same agreement.",
+   "Bounded by the deviation count and the value sets in genpk.rs (long lengths on at most two fields at a time); each builder setter used at most once. SSO feature builds run in the thorough wrapper.",
+   "DESIGN.md §3 C02")
+CHECKS["C03"] = ("ENUM", EX, "bounded-exhaustive differential enumeration against an independently written reference codec",
+   "Same abstract packet space as C02. For every accepted packet the library's bytes must equal the reference encoder's bytes (refcodec.rs, written from the OASIS texts, no shared code or constants), the packet parsed from the reference encoding must return the field values through its public accessors, and so must the built packet. FixedHeader, PacketType, PropertyId and all eleven reason-code enums are compared with the specification tables for all 256 byte values.",
+   "Trusts the reference codec (cross-checked: a disagreement is examined on the specification text). Non-standard builder features outside the specification's packet model (a reason code on v3.1.1 acknowledgements) are outside the abstract space.",
+   "DESIGN.md §3 C03")
+CHECKS["C04"] = ("ENUM", EX, "exhaustive short-string enumeration and exhaustive single-mutation enumeration over every parser entry point",
+   "105 entry points (every packet parser of both versions with u16 and u32 identifiers, PUBLISH with all 16 flag nibbles, Property / Properties / SubEntry / MqttString / MqttBinary / VariableByteInteger decoders) receive every byte string of length <= 3 (thorough 4), every string of length 4..5 (thorough 6) over a 24-symbol alphabet, and every single mutation (thorough: pairs on short seeds) of every seed body; a connected client and server receive 1M short streams (totality only). Oracle: no panic, consumed <= len; on acceptance size() == serialisation, Remaining Length correct, re-parse equal, strings valid UTF-8, and builder agreement (the packet's own field values are accepted by the public builder; a packet no builder can reproduce must at least be a conformant encoding per the strict reference decoder).",
+   "Inputs longer than the stated bounds are covered only through the mutation sets. Uniformly random strings are not used (sampling is outside this family).",
+   "DESIGN.md §3 C04")
+CHECKS["C18"] = ("ENUM", EX, "exhaustive enumeration of the finite property placement table on builder and parser path",
+   "All cells 27 property kinds x 14 property-carrying locations x occurrences {1,2} x {typical value, each boundary the specification singles out} are evaluated on the builder path and on the parser path (reference-encoded packet); accept <=> the specification table allows the property there, the occurrence count is allowed (User Property everywhere, Subscription Identifier in PUBLISH) and the value is legal; builder and parser must agree in every cell.",
+   "Finite table, fully enumerated; the table itself (refcodec.rs prop_allowed / prop_may_repeat / prop_value_legal) is trusted and was written from MQTT v5.0 Table 2-4.",
+   "DESIGN.md §3 C18")
 NOT_YET = {}
 
 def main():
